@@ -48,8 +48,6 @@ FINDINGS = [
      "{x #** y z}: a #** form at an odd position of a dict literal puts the None marker into `values`; compile() raises ValueError"),
     ("C10-augassign-sequence-target", r"^compile:SystemError:invalid node type \(N\) for augmented assignment$", "aug_bad_target",
      "(+= [] x), (//= #* x 7): _storeize accepts a list/tuple/starred target for an augmented assignment; compile() raises SystemError"),
-    ("C10-chainc-no-pairs", r"^compile:ValueError:Compare with no comparators$", "chainc_single",
-     "(chainc x) compiles to Compare(ops=[], comparators=[]); compile() raises ValueError"),
     ("C10-matchor-short", r"^compile:ValueError:MatchOr requires at least N patterns$", "short_or_pattern",
      "(match x (|) y) / (| p): MatchOr with fewer than two alternatives; compile() raises ValueError"),
     ("C10-import-empty-names", r"^compile:ValueError:empty names on ImportFrom$", "import_empty_list",
@@ -65,9 +63,10 @@ FINDINGS = [
     ("C10-empty-body", r"^compile:ValueError:(empty body on \w+|Try has neither except handlers nor finalbody)$", "has_empty_form",
      "(for [x y] (require)), (try (finally (pragma))): body forms that compile to no statements leave For/If/Try with an "
      "empty statement list; compile() raises ValueError"),
-    ("C10-falsy-literal-truth-test", r"^compile:TypeError:required field \"lineno\" missing from expr$", "falsy_literal_truth_tested",
-     "(assert x 0), (defclass :tp [#^ 0 T] C): `if msg:` / `x[1] and ...` test the truth of the *model*, so a falsy "
-     "literal (0, \"\", [], {}) is put into the AST uncompiled; compile() raises TypeError"),
+    ("C10-falsy-literal-truth-test", r"^compile:TypeError:required field \"lineno\" missing from expr$", "tp_falsy_bound",
+     "(defclass :tp [#^ 0 T] C), (deftype :tp [(annotate T \"\")] A x): digest_type_params tests `x[1] and ...` on the bound "
+     "*model*, so a falsy literal (0, \"\", [], {}) is put into the AST uncompiled; compile() raises TypeError (the same defect "
+     "in assert was fixed by 50b6a93)"),
     ("C10-match-as-wildcard", r"^compile:ValueError:can'_'_' in patterns$", "as_wildcard",
      "(match x p :as _ y): `:as _` compiles to MatchAs(name='_'); compile() raises ValueError (the #* _ case was fixed by 24b6ab7)"),
     ("C10-toplevel-nonlocal-list", r"^compile:TypeError:required field \"lineno\" missing from stmt$", "has_nonlocal",
@@ -90,6 +89,8 @@ FINDINGS = [
 
 
 FIXED = [
+    ("C10-chainc-no-pairs", "aeaad9f", "(chainc x) compiled to Compare(ops=[], comparators=[]) (ValueError from compile()); the grammar now needs a pair"),
+    ("C10-assert-falsy-message", "50b6a93", "(assert x 0): `if msg:` tested the truth of the message model (TypeError from compile()); now `is not None`"),
     ("C10-match-star-wildcard", "24b6ab7", "(match x [#* _] y) compiled to MatchStar(name='_') (ValueError from compile()); now the star wildcard"),
     ("C10-odd-dict", "bac53a5", "{1}: an odd dict literal compiled to ast.Dict with unequal keys/values (ValueError from compile()); now a HySyntaxError"),
     ("C10-compare-unpack-mapping", "c0e258f", "(= x y #** z): the #** operand was dropped by _compile_collect while the operator "
@@ -233,7 +234,7 @@ def run(chk):
             chk.obligation("grammar correspondence ran", False, str(e)[-1500:])
         try:
             from props import valid_handlers
-            valid_handlers.handler_correspondence(chk, hy, 6000 if thorough else 900)
+            valid_handlers.handler_correspondence(chk, hy, 6000 if thorough else 500)
         except ImportError:
             pass
         except Exception as e:
